@@ -105,6 +105,10 @@ type Plan struct {
 	// Idle lists pair keys ("src/ig") that get no runner (never started).
 	Idle []string `json:"idle,omitempty"`
 	Note string   `json:"note,omitempty"`
+	// Burst: the scheduler releases a drawn *set* of pending events together;
+	// the released goroutine trees then run truly concurrently until each parks
+	// again (C18, race detector builds).
+	Burst bool `json:"burst,omitempty"`
 	// ExpectSem: the fault-free run\'s semantic state hash (retry oracle).
 	ExpectSem string `json:"expect_sem,omitempty"`
 }
